@@ -20,6 +20,11 @@ class Budget(Exception):
     pass
 
 
+class Fork(list):
+    """returned by `step` of `explore`: the path splits into one continuation
+    per fact set (used to apply a callee summary with several outcomes)"""
+
+
 def explore(fn, init, step, edge=None, start_block=None, start_index=0,
             max_states=4096, at_block=None):
     start_block = fn.entry if start_block is None else start_block
@@ -42,40 +47,55 @@ def explore(fn, init, step, edge=None, start_block=None, start_index=0,
         elems = bd['e']
         i0 = start_index if (first and b == start_block) else 0
         first = False
-        cur = facts
-        dead = False
         if at_block is not None:
-            at_block(b, cur)
+            at_block(b, facts)
+        curs = [facts]
         for e in elems[i0:]:
             n = fn.nodes[e]
             if n is None:
                 continue
-            cur = step(n, cur)
-            if cur is None:
-                dead = True
+            nxt = []
+            for cur in curs:
+                r = step(n, cur)
+                if r is None:
+                    continue
+                for x in (r if isinstance(r, Fork) else (r,)):
+                    x = frozenset(x)
+                    if x not in nxt:
+                        nxt.append(x)
+            curs = nxt
+            if not curs:
                 break
-        if dead:
+        if not curs:
             continue
         term = fn.node(bd.get('term')) if bd.get('term') is not None else None
         if term is not None and term['k'] in ('ret', 'goto', 'break', 'continue'):
             # control statements are not CFG elements unless they carry a value
             nb = fn.node_block()
             if term['i'] not in nb:
-                cur = step(term, cur)
-                if cur is None:
+                nxt = []
+                for cur in curs:
+                    r = step(term, cur)
+                    if r is None:
+                        continue
+                    for x in (r if isinstance(r, Fork) else (r,)):
+                        nxt.append(frozenset(x))
+                curs = nxt
+                if not curs:
                     continue
         cond = fn.node(bd.get('cond')) if bd.get('cond') is not None else None
         if bd.get('noreturn'):
             continue            # abort()/__assert_fail(): the path ends here
-        for idx, s in enumerate(bd['s']):
-            if s is None:
-                continue
-            f2 = cur
-            if edge is not None:
-                f2 = edge(b, term, cond, idx, s, cur)
-                if f2 is None:
+        for cur in curs:
+            for idx, s in enumerate(bd['s']):
+                if s is None:
                     continue
-            push(s, frozenset(f2))
+                f2 = cur
+                if edge is not None:
+                    f2 = edge(b, term, cond, idx, s, cur)
+                    if f2 is None:
+                        continue
+                push(s, frozenset(f2))
     return ins
 
 
@@ -416,3 +436,73 @@ class CondTracker(object):
                             out.add(new)
             child = a
         return out
+
+
+def value_holder(fn, call):
+    """how the value of `call` is kept: ('ret', node) when it is returned directly,
+    ('var', name, node) when a declaration or assignment stores it, ('expr', node)
+    when it is used in place (a condition, an argument), ('dropped', node)"""
+    p = fn.parent(call)
+    while p is not None and p['k'] in ('cast', 'paren'):
+        if p['k'] == 'cast' and p.get('t') == 'void':
+            return ('dropped', p)
+        p = fn.parent(p)
+    if p is None or p['k'] in ('compound', 'case', 'default', 'label'):
+        return ('dropped', p)
+    if p['k'] == 'ret':
+        return ('ret', p)
+    if p['k'] == 'decl':
+        return ('var', p['name'], p)
+    if p['k'] == 'bin' and p['op'] == '=':
+        l = fn.kid(p, 0)
+        if l is not None and l['k'] == 'ref' and fn.kid(p, 1) is not l:
+            return ('var', l['name'], p)
+    if p['k'] in ('if', 'while', 'for', 'do') and not any(x is call for x in fn.walk(fn.kid(p, 0))):
+        return ('dropped', p)
+    return ('expr', p)
+
+
+def error_propagated(fn, call):
+    """Does fn hand a non-zero result of `call` on to its own caller unchanged?
+    Returns (True, None) or (False, offending node).  Accepts `return call(..)`,
+    the repo's FAIL_ON_ERROR idiom (a local compared with 0, then returned) and
+    `x = call(..); if (x != 0) goto out; ... out: return x;`."""
+    h = value_holder(fn, call)
+    if h[0] == 'ret':
+        return True, None
+    if h[0] != 'var':
+        return False, h[1] if h[1] is not None else call
+    var, at = h[1], h[2]
+    ct = CondTracker(fn, extra=[var])
+    bad = []
+
+    def step(n, facts):
+        if n['k'] == 'bin' and n['op'].endswith('=') and n['op'] not in ('==', '!=', '<=', '>=') and n is not at:
+            l = fn.kid(n, 0)
+            if l is not None and l['k'] == 'ref' and l['name'] == var:
+                if 'err' in facts or 'ok' not in facts:
+                    bad.append(n)    # overwritten while it may hold an error
+                return None          # the variable now holds something else
+        if n['k'] == 'ret':
+            if 'err' in facts or 'ok' not in facts:
+                e = fn.kid(n, 0) if n.get('c') else None
+                while e is not None and e['k'] in ('cast', 'paren'):
+                    e = fn.kid(e, 0)
+                if not (e is not None and e['k'] == 'ref' and e['name'] == var):
+                    bad.append(n)
+            return None
+        return facts
+
+    def edge(b, term, cond, idx, succ, facts):
+        pol = branch_polarity(fn, term, idx)
+        if pol is None or cond is None:
+            return facts
+        imp = ct.implied(cond, pol)
+        if imp is not None and imp[1] == var and imp[2] == 0:
+            if imp[0] == 'ne':
+                return None if 'ok' in facts else facts | {'err'}
+            return None if 'err' in facts else facts | {'ok'}
+        return facts
+    nb = fn.block_of(call)
+    explore(fn, set(), step, edge, start_block=nb[0], start_index=nb[1] + 1, max_states=256)
+    return (not bad), (bad[0] if bad else None)
